@@ -39,6 +39,8 @@ import (
 
 	cdcjson "github.com/rqlite/rqlite/v10/cdc/json"
 	"github.com/rqlite/rqlite/v10/command/proto"
+	"github.com/rqlite/rqlite/v10/internal/rarchive/flate"
+	"go.etcd.io/bbolt"
 )
 
 // ---------------------------------------------------------------- models for the symbolic run
@@ -509,7 +511,54 @@ func (w *verifC25World) snapshotSync() {
 	for _, g := range w.groups {
 		g.synced = true
 	}
+	// cdc/DESIGN.md, Snapshot Synchronization: "This ensures all committed changes are safely in
+	// the BoltDB FIFO before any Raft log truncation occurs" - unless they were delivered (and
+	// pruned) already, or an HWM update from the cluster says that another leader delivered them
+	durable := w.durableRows()
+	for _, g := range w.groups {
+		if g.delivered || w.covered(g.index) {
+			continue
+		}
+		found := false
+		for _, r := range durable {
+			if r == g.row {
+				found = true
+			}
+		}
+		if !found {
+			if w.laterGroup(g) {
+				verifFinding("C25-later-group-of-entry-not-delivered")
+			}
+			if g.rushed {
+				verifFinding("C25-snapshot-sync-overtakes-groups-in-hand-off-channel")
+			}
+			verifAssert("C25-answered-snapshot-sync-means-durable", false)
+		}
+	}
 	w.curEntry = -1 // snapshots happen between log entries
+}
+
+// durableRows reads the disk queue (white box: the bbolt file behind cdc.Queue, while the queue's
+// goroutine is at rest) and returns the row ids of the groups stored in it.
+func (w *verifC25World) durableRows() []int64 {
+	var rows []int64
+	err := w.svc.fifo.db.View(func(tx *bbolt.Tx) error {
+		c := tx.Bucket(bucketName).Cursor()
+		for k, v := c.First(); k != nil; k, v = c.Next() {
+			data, err := flate.Decompress(v)
+			if err != nil {
+				return err
+			}
+			msgs, ok := verifC25Decode(data)
+			verifAssert("C25-stored-batch-well-formed", ok)
+			for _, m := range msgs {
+				rows = append(rows, m.rows...)
+			}
+		}
+		return nil
+	})
+	verifAssert("C25-disk-queue-readable", err == nil)
+	return rows
 }
 
 // restart: the node stops and starts again; Raft applies the entries after the last snapshot
@@ -754,25 +803,30 @@ func VerifC25bSnapshotRace() {
 		[]int{vC25Restart, vC25Feed, vC25TickBatch, vC25BurstSnapshot, vC25Leader})
 }
 
-// VerifC25bSnapshotRacePreempt (thorough tier): the same start with every order of the runnable
-// goroutines and one preemption.
-func VerifC25bSnapshotRacePreempt() {
-	verifC25HistoryFrom(1+verifChoice("batchSz", 2), 1, verifChoice("startLeader", 2) == 1,
-		[]int{vC25BurstSnapshot}, []int{vC25Restart})
+// VerifC25bSnapshotRaceSchedules (thorough tier): burst and snapshot sync with EVERY order in
+// which the runnable goroutines can run and up to two preemptions (the processor is taken away
+// from a running goroutine at a synchronisation operation), besides every select choice; judged
+// by what the disk queue holds when the sync has been answered.
+func VerifC25bSnapshotRaceSchedules() {
+	verifPanicsAreViolations()
+	w := verifNewC25World(1 + verifChoice("batchSz", 2))
+	defer w.finish()
+	if verifChoice("startLeader", 2) == 1 {
+		w.setLeader(true)
+	}
+	w.step(0, []int{vC25BurstSnapshot})
 }
 
 // VerifC25bStartup: what a restarted service does with a disk queue whose batches were never
 // transmitted (the node was follower, or the endpoint was down): two entries are in the disk
 // queue - in one batch or in two - then every history of restart, leader change, outage on-off,
-// HWM interval, feed, HWM update from the cluster.
+// HWM interval, HWM update from the cluster (thorough tier: and feed).
 func VerifC25bStartup() {
-	steps := 4
+	steps, ops := 4, []int{vC25Restart, vC25Leader, vC25Outage, vC25TickHWM, vC25ClusterHWM}
 	if verifTier() == 1 {
-		steps = 5
+		steps, ops = 5, append(ops, vC25Feed)
 	}
-	verifC25HistoryFrom(1+verifChoice("batchSz", 2), steps, false,
-		[]int{vC25Feed, vC25Feed, vC25TickBatch},
-		[]int{vC25Restart, vC25Leader, vC25Outage, vC25TickHWM, vC25Feed, vC25ClusterHWM})
+	verifC25HistoryFrom(1+verifChoice("batchSz", 2), steps, false, []int{vC25Feed, vC25Feed, vC25TickBatch}, ops)
 }
 
 // VerifC25bTwin: same world; the final assertion contradicts the property and must fail.
